@@ -732,6 +732,10 @@ def table_configs(tier):
                         vias += ("attributes",)
                     for via in vias:
                         out.append(dict(n_t=n_t, labels=labels, dist=dist, over=over, n_pts=n_pts, inflow_at=ia, via=via))
+    if tier == "quick":
+        for dist in DISTS:      # four time items: the smallest grid whose interval lengths differ
+            out.append(dict(n_t=4, labels=(), dist=dist, over="number", n_pts=1, inflow_at="middle", via="set_prms"))
+            out.append(dict(n_t=4, labels=(), dist=dist, over="time", n_pts=2, inflow_at="middle", via="set_prms"))
     # a parameter that is exactly zero for one label next to generic values for the others (a special case taken for one label must
     # not spill over to the others)
     for dist, prm in (("NormalLifetime", "std"),):      # (folded normal: mean / 0 is an infinity, not modelled)
@@ -766,6 +770,12 @@ def dsm_configs(tier):
     for dist in (DISTS if tier == "thorough" else ("NormalLifetime", "FixedLifetime")):
         for over in ("all", "time"):
             out.append(dict(n_t=3, labels=("a",), dist=dist, over=over, n_pts=1, inflow_at="middle", grid="equidistant"))
+    if tier == "quick":
+        # with three time items all interval lengths coincide (the outer intervals mirror the only inner one): four items are the
+        # smallest grid with genuinely different interval lengths
+        for dist in ("NormalLifetime", "FixedLifetime"):
+            out.append(dict(n_t=4, labels=(), dist=dist, over="number", n_pts=1, inflow_at="middle"))
+        out.append(dict(n_t=4, labels=("a",), dist="NormalLifetime", over="all", n_pts=1, inflow_at="middle"))
     return out
 
 
